@@ -226,7 +226,7 @@ class Command:
                     value.tosieve(indentlevel, target=target)
                     continue
 
-                if "string" in atype:
+                if "string" in atype or "stringlist" in atype:
                     target.write(value)
                     if not value.startswith('"') and not value.startswith("["):
                         target.write("\n")
